@@ -31,14 +31,27 @@ Fixpoint format_s (fuel : nat) (fmt : string) (args : list string) : string :=
   end.
 Definition format2 (fmt a b : string) : string := format_s (String.length fmt) fmt [a; b].
 
-(* re.sub('(field\\([^\\)]+\\))', '\\1.text', s): every leftmost non-overlapping  field( x+ )  gets .text appended *)
-Fixpoint find_close (s : string) : option (string * string) :=      (* (chars before the first ')', rest after it) *)
+(* operation.field_text: every leftmost non-overlapping  field( ... )  gets .text appended; the closing parenthesis
+   is found by counting, string literals (with backslash escapes) skipped *)
+Definition scan_cons (c : Ascii.ascii) (o : option (string * string)) : option (string * string) :=
+  match o with Some (a, b) => Some (String c a, b) | None => None end.
+(* from the opening parenthesis: (text up to and including the closing parenthesis, rest) *)
+Fixpoint close_scan (s : string) (depth : Z) (in_string skip : bool) : option (string * string) :=
   match s with
   | EmptyString => None
-  | String ")" r => Some ("", r)
-  | String c r => match find_close r with Some (a, b) => Some (String c a, b) | None => None end
+  | String c r =>
+    if skip then scan_cons c (close_scan r depth in_string false)
+    else if in_string then
+      if Ascii.eqb c "\" then scan_cons c (close_scan r depth true true)
+      else if Ascii.eqb c """" then scan_cons c (close_scan r depth false false)
+      else scan_cons c (close_scan r depth true false)
+    else if Ascii.eqb c """" then scan_cons c (close_scan r depth true false)
+    else if Ascii.eqb c "(" then scan_cons c (close_scan r (depth + 1) false false)
+    else if Ascii.eqb c ")" then
+      if (depth - 1 =? 0)%Z then Some (String c "", r) else scan_cons c (close_scan r (depth - 1) false false)
+    else scan_cons c (close_scan r depth false false)
   end.
-Fixpoint re_sub_field (fuel : nat) (s : string) : string :=
+Fixpoint field_text_fuel (fuel : nat) (s : string) : string :=
   match fuel with
   | O => s
   | S f =>
@@ -46,16 +59,14 @@ Fixpoint re_sub_field (fuel : nat) (s : string) : string :=
     | EmptyString => ""
     | String c r =>
       if starts_with "field(" s then
-        match find_close (drop 6 s) with
-        | Some (inner, rest) =>
-          if String.eqb inner "" then String c (re_sub_field f r)
-          else "field(" ++ inner ++ ").text" ++ re_sub_field f rest
+        match close_scan (drop 5 s) 0 false false with
+        | Some (ref, rest) => "field" ++ ref ++ ".text" ++ field_text_fuel f rest
         | None => s
         end
-      else String c (re_sub_field f r)
+      else String c (field_text_fuel f r)
     end
   end.
-Definition field_text (s : string) : string := re_sub_field (String.length s) s.
+Definition field_text (s : string) : string := field_text_fuel (String.length s) s.
 
 (* CallFunction.gv_as_sym: a Symbol in first-argument position of a list function is a global variable *)
 Definition gv_as_sym (name : string) (ops : list node) : list node :=
@@ -106,6 +117,15 @@ Fixpoint pairs {A} (l : list A) : list (A * A) :=
   match l with a :: b :: r => (a, b) :: pairs r | _ => [] end.
 
 Definition ops_of (n : node) : list node := match n with LoadList _ _ ops => ops | _ => [] end.
+
+(* isinstance(x, ConstantValue) *)
+Definition is_const_node (n : node) : bool := match n with Leaf KConst _ _ _ | Leaf KConstInt _ _ _ => true | _ => false end.
+(* "sprite <id>", "cast <id>", ... *)
+Definition lingo_leaf_obj (k : lclass) (s : string) : string :=
+  match k with
+  | KMenu => "menu " ++ s | KMenuItem => "menuItem " ++ s | KSound => "sound " ++ s | KSprite => "sprite " ++ s | KCast => "cast " ++ s
+  | _ => s
+  end.
 
 Fixpoint gen_lingo_sp (sp : bool) (n : node) (ind : nat) {struct n} : string :=
   let gen_lingo := gen_lingo_sp false in
@@ -231,6 +251,9 @@ Fixpoint gen_lingo_sp (sp : bool) (n : node) (ind : nat) {struct n} : string :=
   | Tell _ operand body =>
     "tell " ++ gen_lingo operand 0%nat ++ "
 " ++ concat_all (map (fun st => gen_lingo st (S ind)) body) ++ indent ind ++ "end tell"
+  | ObjRef k name _ ident =>
+    (* IdentifiedObject: a number or a name (ConstantValue) is written as it is, anything else is generated *)
+    lingo_leaf_obj k (if is_const_node ident then name else gen_lingo ident ind)
   end.
 
 Definition gen_lingo := gen_lingo_sp false.
@@ -407,6 +430,7 @@ Fixpoint gen_js (n : node) (ind : nat) (fm : bool) {struct n} : string :=
   | Tell _ operand body =>
     "with " ++ wrap_paren operand (gen_js operand 0%nat fm) ++ " {
 " ++ concat_all (map (fun st => gen_js st (S ind) fm) body) ++ indent ind ++ "}"
+  | ObjRef k name _ ident => js_leaf k (if is_const_node ident then name else gen_js ident ind fm) fm
   end.
 
 (* ---------------------------------------------------------------- script level *)
